@@ -580,6 +580,21 @@ def run_tstress(run, case):
     rng = run.rng('tstress', case['i'])
     spec = case.get('spec') or gen_conf(rng)
     spec['cache']['meta_buffer'] = 0
+    # variants: plain | flat_linked (single-coloured upstream, tiles are links to one shared colour file that every request
+    # for that colour writes) | expired (the tiles exist but are older than the refresh threshold: the re-check under the
+    # tile lock has to see what another request stored meanwhile)
+    variant = case.get('variant') or rng.choice(['plain', 'plain', 'flat_linked', 'expired'])
+    if variant == 'flat_linked':
+        spec['backend'] = 'file'
+        spec['cache']['cache'] = {'type': 'file', 'directory_layout': rng.choice(['tc', 'tms', 'quadkey'])}
+        spec['cache']['link_single_color_images'] = rng.choice([True, True, 'hardlink'])
+    elif variant == 'expired':
+        spec['backend'] = 'file'
+        spec['cache']['cache'] = {'type': 'file', 'directory_layout': 'tc'}
+        T0 = int(time.time()) - 30 * 86400
+        spec['cache']['refresh_before'] = {'time': time.strftime('%Y-%m-%dT%H:%M:%S', time.localtime(T0))}
+        if rng.random() < 0.6:
+            spec['cache']['meta_size'] = [1, 1]
     d = run.subdir('c08t')
     up = upstream.install()
     old_before, old_after = up.before, up.after
@@ -590,6 +605,35 @@ def run_tstress(run, case):
         z = min(3, grid.levels - 1)
         nx, ny = grid.grid_sizes[z]
         coords = sorted(set((rng.randrange(nx), rng.randrange(ny), z) for _ in range(rng.randint(3, 6))))
+        FLAT = (31, 120, 200)
+        if variant == 'flat_linked':
+            import io as _io
+            from PIL import Image as _Image
+
+            def flat(call):
+                try:
+                    w_, h_ = int(call.params.get('width', 32)), int(call.params.get('height', 32))
+                except ValueError:
+                    w_, h_ = 32, 32
+                if call.kind != 'getmap':
+                    w_, h_ = spec['grid']['tile_size']
+                b_ = _io.BytesIO()
+                _Image.new('RGB', (max(1, min(w_, 2048)), max(1, min(h_, 2048))), FLAT).save(b_, 'PNG')
+                return upstream.Resp(b_.getvalue(), 'image/png')
+            up.register('noise', flat)
+            up.register('ntiles', flat)
+        if variant == 'expired':
+            from mapproxy.cache.tile import Tile as _Tile
+            # fill sequentially, then make every stored tile older than the threshold
+            for c in coords:
+                with tm.session():
+                    tm.load_tile_coord(tuple(c))
+            nold = 0
+            for root_, _, files_ in os.walk(tm.cache.cache_dir):
+                for f_ in files_:
+                    os.utime(os.path.join(root_, f_), (T0 - 3600, T0 - 3600))
+                    nold += 1
+            run.count('thread_stress_expired_tiles_prepared', nold)
         nthreads = rng.randint(3, 6)
         plans = [[rng.choice(coords) for _ in range(rng.randint(3, 6))] for _ in range(nthreads)]
         delays = [rng.choice([0, 0, 0.0005, 0.002, 0.01]) for _ in range(64)]
@@ -612,7 +656,12 @@ def run_tstress(run, case):
                         with plock:
                             problems.append(('no_image', 'thread %d: no image for %r' % (k, c)))
                         continue
-                    ok, detail, n, exact = c04.judge_tile(lat, tuple(c), t.source.as_image(), True)
+                    if variant == 'flat_linked':
+                        im_ = t.source.as_image().convert('RGB')
+                        cols_ = im_.getcolors(4)
+                        ok, detail = (cols_ is not None and len(cols_) == 1 and cols_[0][1] == FLAT), 'colours %r' % (cols_,)
+                    else:
+                        ok, detail, n, exact = c04.judge_tile(lat, tuple(c), t.source.as_image(), True)
                     if not ok:
                         with plock:
                             problems.append(('wrong_image', 'thread %d tile %r: %s' % (k, c, detail)))
@@ -632,8 +681,9 @@ def run_tstress(run, case):
             run.dc('thread_stress_round_cut_by_watchdog')
             return
         run.hit('thread_stress_rounds')
+        run.hit('thread_stress_rounds_' + variant)
         run.hit('thread_stress_requests', sum(len(p) for p in plans))
-        run.judge((spec['backend'], tuple(spec['cache']['meta_size']), spec['src_kind'], 'tstress', nthreads), nontrivial=True)
+        run.judge((spec['backend'], tuple(spec['cache']['meta_size']), spec['src_kind'], 'tstress', variant, nthreads), nontrivial=True)
         per = {}
         for c in up.log[n0:]:
             per[c.url] = per.get(c.url, 0) + 1
@@ -647,8 +697,8 @@ def run_tstress(run, case):
                 continue
             seen.add(kind)
             run.violation({'problem': kind, 'backend': spec['backend'], 'src': spec['src_kind'],
-                           'meta': spec['cache']['meta_size'], 'mode': 'thread_stress'},
-                          dict(case, spec=spec), '%s | plans %r' % (pdesc, plans))
+                           'meta': spec['cache']['meta_size'], 'mode': 'thread_stress', 'variant': variant},
+                          dict(case, spec=spec, variant=variant), '%s | variant %s | plans %r' % (pdesc, variant, plans))
     finally:
         sys.setswitchinterval(old_switch)
         up.before, up.after = old_before, old_after
